@@ -37,6 +37,51 @@ struct QModel { std::deque<long> q; long cap;
         case K_SETCAP: cap = o.arg; return true; }
         return false; } };
 
+// Relaxed reference model for the recorded finding "an invalid entry counts against the capacity" (known_findings.txt): a push that
+// failed after it had taken its ticket (element constructor threw, or a blocked push was aborted) leaves an invalid entry PH that occupies
+// a slot until a COMPLETED pop has passed over it.  Identical to QModel as long as no push fails.
+static const long PH = -777;
+struct RModel { std::deque<long> q; long cap;
+    void skip() { while (!q.empty() && q.front() == PH) q.pop_front(); }
+    bool apply(const Op& o, bool) {
+        switch (o.kind) {
+        case K_PUSH: if (o.res == R_ABORTED) { q.push_back(PH); return true; } if ((long)q.size() >= cap) return false; q.push_back(o.res == R_THREW ? PH : o.arg); return true;
+        case K_TRYPUSH: if (o.res == 0) return (long)q.size() >= cap; if ((long)q.size() >= cap) return false; q.push_back(o.res == R_THREW ? PH : o.arg); return true;
+        case K_TRYPOP: skip(); if (o.res == R_EMPTY) return q.empty(); if (q.empty() || q.front() != o.res) return false; q.pop_front(); return true;
+        case K_POP: if (o.res == R_ABORTED) return true; skip(); if (q.empty() || q.front() != o.res) return false; q.pop_front(); return true;
+        case K_ABORT: return true;
+        case K_SETCAP: cap = o.arg; return true; }
+        return false; } };
+// Search over linearizations of the completed operations in the relaxed model.  A pop takes its ticket (and so passes over leading invalid
+// entries, which admits waiting pushes) when it STARTS, not when it returns: a completed pop-like call may therefore "skip" at any moment
+// of its interval before its own linearization point.  Pending calls take no effect.
+template <class Fin> static bool rsearch(const std::vector<Op>& ops, std::vector<char>& used, int remaining, const RModel& m, Fin& fin) {
+    if (remaining == 0) return fin(m);
+    unsigned long min_t1 = ~0ul;
+    for (size_t i = 0; i < ops.size(); i++) if (!used[i] && ops[i].done) min_t1 = std::min(min_t1, ops[i].t1);
+    if (!m.q.empty() && m.q.front() == PH) {
+        bool can = false;
+        for (size_t i = 0; i < ops.size(); i++) if (!used[i] && ops[i].done && (ops[i].kind == K_POP || ops[i].kind == K_TRYPOP) && ops[i].res != R_ABORTED && ops[i].t0 <= min_t1) can = true;
+        if (can) { RModel m2 = m; m2.skip(); if (rsearch(ops, used, remaining, m2, fin)) return true; } }
+    for (size_t i = 0; i < ops.size(); i++) {
+        if (used[i] || !ops[i].done || ops[i].t0 > min_t1) continue;
+        RModel m2 = m; if (!m2.apply(ops[i], true)) continue;
+        used[i] = 1; bool ok = rsearch(ops, used, remaining - 1, m2, fin); used[i] = 0; if (ok) return true; }
+    return false; }
+template <class Fin> static bool rlin(const std::vector<Op>& ops, const RModel& init, Fin fin) { std::vector<char> used(ops.size(), 0); int nd = 0; for (auto& o : ops) nd += o.done; return rsearch(ops, used, nd, init, fin); }
+static const Log* g_log = nullptr; static RModel g_rinit; static bool g_bounded = false;
+static bool failed_push(const std::vector<Op>& ops) { for (auto& o : ops) if (o.done && (o.kind == K_PUSH || o.kind == K_TRYPUSH) && (o.res == R_THREW || o.res == R_ABORTED)) return true; return false; }
+// stuck execution: explained iff the completed operations have a linearization in the relaxed model after which every pending call is
+// legitimately waiting (a pending push: no free slot counting invalid entries; a pending pop: no item)
+static const char* explain_stuck() {
+    if (!g_bounded || !g_log || !failed_push(g_log->ops)) return nullptr;
+    const std::vector<Op>& ops = g_log->ops;
+    bool ok = rlin(ops, g_rinit, [&](const RModel& m) {
+        bool items = false; for (long v : m.q) if (v != PH) items = true;
+        for (auto& o : ops) if (!o.done) { if ((o.kind == K_PUSH) && (long)m.q.size() < m.cap) return false; if ((o.kind == K_POP || o.kind == K_TRYPOP) && items) return false; if (o.kind == K_TRYPUSH) return false; }
+        return true; });
+    return ok ? "blocked only because the invalid entry left by a failed push still counts against the capacity" : nullptr; }
+
 struct Step { int kind; long arg; };
 static std::vector<std::vector<Step>> parse(const char* s) {
     std::vector<std::vector<Step>> r(1);
@@ -76,8 +121,9 @@ template <class Q, class E, bool BOUNDED> struct Run {
         bool aborter = false;
         for (long i = 0; i < pre; i++) { do_op({K_TRYPUSH + (BOUNDED ? 0 : -1), 1000 + i}, 0, aborter); do_op({K_TRYPOP, 0}, 0, aborter); }
         set_cap(cap);
-        QModel m; m.cap = cap;
+        QModel m; m.cap = cap; g_bounded = BOUNDED; g_log = &log; vf_on_stuck(explain_stuck);
         for (long i = 0; i < keep; i++) { do_op({BOUNDED ? K_TRYPUSH : K_PUSH, 500 + i}, 0, aborter); m.q.push_back(500 + i); }
+        g_rinit.q = m.q; g_rinit.cap = cap;
         g_throwat = (int)vf_param_int("throwat", 0); g_arm = g_throwat > 0; g_copies = 0;
         vf_liveness(1);
         std::vector<int> ids = gated(nthreads, nullptr, [&](int i) { thread_body(progs[i], i); });
@@ -87,7 +133,10 @@ template <class Q, class E, bool BOUNDED> struct Run {
         for (;;) { int i = log.begin(K_TRYPOP, 0); long r = do_op({K_TRYPOP, 0}, 0, aborter); log.end(i, r); if (r == R_EMPTY) break; }
         // aborted calls must overlap an abort
         for (auto& o : log.ops) if (o.res == R_ABORTED) { bool ok = false; for (auto& a : log.ops) if (a.kind == K_ABORT && a.t0 < o.t1) ok = true; if (!ok) vf_fail("call returned user_abort although no abort() had started: %s", log.str(NAMES).c_str()); }
-        if (!linearizable(log.ops, m)) vf_fail("history is not linearizable to a FIFO queue: %s", log.str(NAMES).c_str());
+        if (!linearizable(log.ops, m)) {
+            if (BOUNDED && failed_push(log.ops) && rlin(log.ops, g_rinit, [](const RModel&) { return true; }))
+                vf_fail("history is linearizable only if the invalid entry left by a failed push counts against the capacity until a pop passes over it: %s", log.str(NAMES).c_str());
+            vf_fail("history is not linearizable to a FIFO queue: %s", log.str(NAMES).c_str()); }
         for (auto& o : log.ops) { if (o.thread == 0 && o.kind == K_TRYPOP && o.res == R_EMPTY) break; vf_outcome("%s%ld ", o.kind == K_TRYPOP || o.kind == K_POP ? "g" : o.kind == K_PUSH ? "p" : o.kind == K_TRYPUSH ? "t" : "x", o.res); }
     }
     template <bool B = BOUNDED> typename std::enable_if<B>::type do_abort() { q.abort(); }
